@@ -505,6 +505,10 @@ def to_host_str(it, v):
     if isinstance(v, (str, int, float, bytes, type(None), bool, tuple, list,
                       dict)):
         return v
+    I = _interp_types()
+    if isinstance(v, I.BuiltinType):
+        # str(int) == "<class 'int'>": format the host type itself
+        return v.host
     raise Unsupported('formatting of %r' % (v,))
 
 
